@@ -42,12 +42,14 @@ func profileFor(prop string) Profile {
 		p.PMalformed, p.PLoggerOpt, p.PPrereq, p.PSegmentOp, p.MinFlags = 0.25, 0.75, 0.6, 0.4, 2
 	case "C18":
 		p.Ops = []string{"before", "after", "before", "after", "in"}
+		p.PDateAttr = 0.7
 		p.MaxRules, p.MaxClauses, p.PSegmentOp, p.PPrereq, p.PTargets, p.PCtxTargets, p.PRollout, p.POff = 2, 2, 0.03, 0, 0.02, 0.02, 0.05, 0.02
 	case "C14":
 		p.PDocNoise = 0.1
 		// what the preprocessor touches: equality sets, regex / date / semver operands, target and segment key lists
 		p.Ops = append(append([]string{}, allOps...), "in", "in", "matches", "before", "after", "before", "after", "semVerEqual", "semVerLessThan", "semVerGreaterThan")
 		p.PSegmentOp, p.MinSegs, p.PTargets, p.PCtxTargets, p.POff, p.PPrereq = 0.3, 1, 0.4, 0.3, 0.05, 0.2
+		p.PDateAttr = 0.4
 	}
 	return p
 }
